@@ -38,11 +38,19 @@ ANCHORS = [
 ]
 
 
-def sopts(rng):
+def sopts(rng, tier="quick"):
+    if tier == "thorough" and rng.random() < 0.5:
+        # bigger schemas in the thorough tier
+        return smodel.GenOpts(p_mutation=0.35, n_objects=(4, 10), n_interfaces=(1, 4), n_unions=(0, 3), n_enums=(1, 3),
+                              n_inputs=(0, 3), n_scalars=(0, 2), fields=(2, 7))
     return smodel.GenOpts(p_mutation=0.35)
 
 
-def dopts(rng):
+def dopts(rng, tier="quick"):
+    if tier == "thorough" and rng.random() < 0.5:
+        return docgen.DocOpts(n_ops=rng.choice([(1, 1), (1, 4)]), op_kinds=("query", "mutation"),
+                              max_depth=rng.choice([4, 5, 6]), max_fields=rng.choice([40, 60, 90]), introspection=0.1,
+                              p_spread=rng.choice([0.18, 0.3]), p_inline=rng.choice([0.18, 0.3]))
     return docgen.DocOpts(n_ops=rng.choice([(1, 1), (1, 1), (1, 3)]), op_kinds=("query", "mutation"),
                           max_depth=rng.choice([3, 4, 5]), max_fields=rng.choice([12, 25, 40]),
                           introspection=0.1)
@@ -125,10 +133,10 @@ async def check_request(ctx, s, engine, req, sdl, require_valid=True):
 
 
 async def run_case(ctx, rng, index):
-    s, b = await X.new_bundle(rng, sopts(rng))
+    s, b = await X.new_bundle(rng, sopts(rng, ctx.tier))
     try:
         for _ in range(DOCS_PER_SCHEMA):
-            req0 = X.gen_request(rng, s, dopts(rng))
+            req0 = X.gen_request(rng, s, dopts(rng, ctx.tier))
             for k in range(WORLDS_PER_DOC):
                 req = req0 if k == 0 else X.gen_request(rng, s, doc=req0.doc)
                 await check_request(ctx, s, b.engine, req, b.sdl)
